@@ -42,7 +42,7 @@ CHECKS["C16"] = dict(
     text="Each write operation of the property (assignment, self-assignment, +=, |=, append, extend, insert, item assignment, add, update) "
          "is executed as a statement of the interpreted program through the real __get__/__set__/MonitoredList/MonitoredSet code from "
          "contents of length 0..2 with opaque elements; post: contents equal the Python list/set model and every element that became "
-         "part of the field has its relation recorded. Level 'other': lengths are enumerated. Bounded stand-in: all operation "
+         "part of the field has its relation recorded. Assignment, extend and update are additionally discharged for a source of ANY length (loop rule: per element exactly that element is added and its relation recorded, nothing skipped). Level 'other': the initial contents and the remaining operations are enumerated. Bounded stand-in: all operation "
          "sequences of length <=2 (thorough 3) on the real dataset classes vs a plain list/set and element-wise appending.",
     note="Assumed: builtin list/set semantics, the += / |= desugaring, weakref; the inferences triggered by a recorded relation are C15's subject.",
 )
